@@ -152,6 +152,40 @@ def generate(repo=None, out_dir=None):
                                ['level', 'new_cycmax', 'var_clevel_sc', 'var_cycle', 'var_cycmax']})
     defs.append(text)
 
+    # 4a. is the level-0 cycmax re-computed inside the while loop?  (sc_dir can
+    #     change between fine-grid cycles; a stale value degrades F-cycles)
+    whl = [n for n in fn.body if isinstance(n, ast.While)]
+    if len(whl) != 1:
+        bad(fn, "multigrid(): expected exactly one top-level while loop")
+    recomputed = False
+    for st in whl[0].body:
+        if isinstance(st, ast.If) and ast.unparse(st.test) == 'level == 0' and not st.orelse \
+                and len(st.body) == 1 and ast.dump(st.body[0]) == ast.dump(cyc_if):
+            recomputed = True
+    # any other assignment to cycmax inside the loop is not understood
+    for n in ast.walk(whl[0]):
+        if isinstance(n, ast.Assign) and any(isinstance(t, ast.Name) and t.id == 'cycmax'
+                                             for t in n.targets):
+            if not recomputed:
+                bad(n, "multigrid(): cycmax assigned inside the loop in an unexpected way")
+    defs.append("Definition level0_cycmax_recomputed : bool := "
+                + ("true" if recomputed else "false") + ".\n")
+
+    # 4b. the recursive call: multigrid(..., level=level+1, new_cycmax=cycmax-cyc)
+    rec = [n for n in ast.walk(fn) if isinstance(n, ast.Call) and isinstance(n.func, ast.Name)
+           and n.func.id == 'multigrid']
+    if len(rec) != 1:
+        bad(fn, "multigrid(): expected exactly one recursive call")
+    kws = {k.arg: k.value for k in rec[0].keywords}
+    if sorted(kws) != ['level', 'new_cycmax']:
+        bad(rec[0], "multigrid(): recursive call keywords changed")
+    f4b = mkfun('mg_handover', ['level', 'cycmax', 'cyc'],
+                [ast.Assign([ast.Name('nl_', ast.Store())], copy.deepcopy(kws['level'])),
+                 ast.Assign([ast.Name('nc_', ast.Store())], copy.deepcopy(kws['new_cycmax'])),
+                 ret(['nl_', 'nc_'])], rec[0].lineno)
+    text, _ = tr.function(f4b, {'level': 'Z', 'cycmax': 'Z', 'cyc': 'Z'})
+    defs.append(text)
+
     # 5. MGParameters._solver_and_cycle: cycmax from the cycle letter
     m = find_class_method(tree, 'MGParameters', '_solver_and_cycle') or bad(tree, "_solver_and_cycle missing")
     cm_if = None
